@@ -132,8 +132,10 @@ class Session:
         if 'str_exc' in rt:
             out.append(spec.Dev('C14', 'str-raised', {'exc': rt['str_exc']}))
             return out
-        if rt['str'] != ev['post_xml']:
-            out.append(spec.Dev('C14', 'str-differs-from-tree', {}))
+        if 'str_parse_error' in rt:
+            out.append(spec.Dev('C14', 'str-not-wellformed', {'error': rt['str_parse_error']}))
+        elif not rt.get('faithful', True):
+            out.append(spec.Dev('C14', 'str-differs-from-tree', {'has_cr': '\r' in rt['str']}))
         if 'rt_exc' in rt:
             out.append(spec.Dev('C14', 'reread-failed', {'exc': rt['rt_exc']}))
             return out
